@@ -370,9 +370,30 @@ fn tz_for_trial(i: u64) -> &'static str {
     TZ_VALUES[((i / CHUNK) % TZ_VALUES.len() as u64) as usize]
 }
 
-fn spawn_child(args: &[String], tz: &str) -> std::io::Result<std::process::Child> {
+/// fd 2 is part of the simulated environment as well (`stderr`, `debug`, `halt_error`,
+/// `input_line_number` diagnostics write to it from inside the evaluators): in one chunk
+/// of trials out of three it is a device that refuses every write (`/dev/full`, ENOSPC).
+/// The harness itself never needs fd 2 of a child: panics are captured by a hook and
+/// reported on fd 1.
+fn writes_diagnostics(program: &str) -> bool {
+    ["stderr", "debug", "halt_error", "input_line_number"].iter().any(|w| program.contains(w))
+}
+
+fn stderr_full_for_trial(i: u64) -> bool {
+    (i / CHUNK) % 3 == 1
+}
+
+static CHILDREN_STDERR_FULL: AtomicU64 = AtomicU64::new(0);
+
+fn spawn_child(args: &[String], tz: &str, stderr_full: bool) -> std::io::Result<std::process::Child> {
     CHILDREN_SPAWNED.fetch_add(1, Ordering::Relaxed);
     let exe = std::env::current_exe()?;
+    let err = if stderr_full {
+        CHILDREN_STDERR_FULL.fetch_add(1, Ordering::Relaxed);
+        Stdio::from(std::fs::OpenOptions::new().write(true).open("/dev/full")?)
+    } else {
+        Stdio::piped()
+    };
     Command::new(exe)
         .args(args)
         .env_clear()
@@ -383,16 +404,19 @@ fn spawn_child(args: &[String], tz: &str) -> std::io::Result<std::process::Child
         .env("VERIF_ROOT", verif_root())
         .stdin(Stdio::null())
         .stdout(Stdio::piped())
-        .stderr(Stdio::piped())
+        .stderr(err)
         .spawn()
 }
 
 fn drive_child(mut child: std::process::Child, from: u64, to: u64) -> ChildRun {
     let stdout = child.stdout.take().expect("piped stdout");
-    let mut stderr = child.stderr.take().expect("piped stderr");
+    let stderr = child.stderr.take();
     let err_thread = std::thread::spawn(move || {
         let mut buf = Vec::new();
         let mut chunk = [0u8; 4096];
+        let Some(mut stderr) = stderr else {
+            return String::new();
+        };
         loop {
             match stderr.read(&mut chunk) {
                 Ok(0) | Err(_) => break,
@@ -619,6 +643,9 @@ struct Case {
     /// Value of `TZ` in the simulated environment (default UTC).
     #[serde(default)]
     tz: Option<String>,
+    /// fd 2 of the simulated process refuses every write (in-process tier only).
+    #[serde(default)]
+    stderr_full: bool,
 }
 
 #[derive(Serialize, Deserialize)]
@@ -794,7 +821,7 @@ fn run_case_site(case: &Case, site: bool) -> (Outcome, Option<Failure>) {
         "--site".to_string(),
         if site { "1" } else { "0" }.to_string(),
     ];
-    let child = match spawn_child(&args, case.tz.as_deref().unwrap_or("UTC")) {
+    let child = match spawn_child(&args, case.tz.as_deref().unwrap_or("UTC"), case.stderr_full) {
         Ok(c) => c,
         Err(e) => {
             eprintln!("harness error: cannot spawn child: {e}");
@@ -891,6 +918,7 @@ struct Stats {
     died_class_b_discarded: u64,
     timed_out_discarded: u64,
     fault_free_trials: u64,
+    stderr_full_writers: u64,
     fault_free_refusals: u64,
     known_hits: BTreeMap<String, u64>,
     distinct_programs: std::collections::HashSet<u64>,
@@ -946,6 +974,7 @@ fn run_parent(seed: u64, tier: Tier, runs: u64, workers: usize, want_log_hash: b
         died_class_b_discarded: 0,
         timed_out_discarded: 0,
         fault_free_trials: 0,
+        stderr_full_writers: 0,
         fault_free_refusals: 0,
         known_hits: BTreeMap::new(),
         distinct_programs: Default::default(),
@@ -977,7 +1006,7 @@ fn run_parent(seed: u64, tier: Tier, runs: u64, workers: usize, want_log_hash: b
                         "--to".to_string(),
                         hi.to_string(),
                     ];
-                    let child = match spawn_child(&args, tz_for_trial(lo)) {
+                    let child = match spawn_child(&args, tz_for_trial(lo), stderr_full_for_trial(lo)) {
                         Ok(c) => c,
                         Err(e) => {
                             eprintln!("harness error: cannot spawn child: {e}");
@@ -997,6 +1026,9 @@ fn run_parent(seed: u64, tier: Tier, runs: u64, workers: usize, want_log_hash: b
                     st.distinct_programs.insert(ph);
                     if t.extreme_pct == 0 {
                         st.fault_free_trials += 1;
+                    }
+                    if stderr_full_for_trial(i) && writes_diagnostics(&t.program) {
+                        st.stderr_full_writers += 1;
                     }
                     let mut class_name;
                     let mut refusals_n = 0u32;
@@ -1115,7 +1147,7 @@ fn run_parent(seed: u64, tier: Tier, runs: u64, workers: usize, want_log_hash: b
                             break;
                         }
                         let t = progen::trial(seed, i);
-                        let case = Case { program: t.program, input: t.input, mem: CLI_MEM, b_first: false, cli: true, tz: Some(tz_for_trial(i).to_string()) };
+                        let case = Case { program: t.program, input: t.input, mem: CLI_MEM, b_first: false, cli: true, tz: Some(tz_for_trial(i).to_string()), stderr_full: false };
                         let (o, f) = run_case_cli(&case);
                         let name = match &o {
                             Outcome::Ended { class, .. } => class.clone(),
@@ -1199,6 +1231,7 @@ fn run_parent(seed: u64, tier: Tier, runs: u64, workers: usize, want_log_hash: b
             b_first: i % 2 == 1,
             cli: *via_cli,
             tz: Some(tz_for_trial(*i).to_string()),
+            stderr_full: !*via_cli && stderr_full_for_trial(*i),
         };
         let (min_case, mut min_f, attempts) = minimise(&case, &f.class);
         if !min_f.class.starts_with("unconfirmed:") {
@@ -1275,6 +1308,9 @@ fn run_parent(seed: u64, tier: Tier, runs: u64, workers: usize, want_log_hash: b
         if st.fault_free_trials == 0 {
             missing.push("fault_free_trials");
         }
+        if st.trials >= 50_000 && st.stderr_full_writers == 0 {
+            missing.push("diagnostic_written_to_unwritable_stderr");
+        }
     }
 
     // evidence
@@ -1295,6 +1331,8 @@ fn run_parent(seed: u64, tier: Tier, runs: u64, workers: usize, want_log_hash: b
             "child_deaths_after_class_B_discarded": st.died_class_b_discarded,
             "watchdog_discards": st.timed_out_discarded,
             "child_processes_started_with_a_non_unicode_environment_variable": CHILDREN_SPAWNED.load(Ordering::Relaxed),
+            "child_processes_started_with_an_unwritable_stderr": CHILDREN_STDERR_FULL.load(Ordering::Relaxed),
+            "trials_writing_diagnostics_to_an_unwritable_stderr": st.stderr_full_writers,
         },
         "fault_free": {"trials": st.fault_free_trials, "refusals": st.fault_free_refusals},
         "peak_live_bytes_max": st.peak_max,
@@ -1315,7 +1353,7 @@ fn run_parent(seed: u64, tier: Tier, runs: u64, workers: usize, want_log_hash: b
         "real_vs_stub": {
             "real": ["succinctly::jq::parse", "jq::eval::<Vec<u64>, JqSemantics>", "jq::eval_generic::eval_with_cursor", "JsonIndex::build",
                      "eval_generic::{to_owned,to_owned_cursor}, LazySeq::materialize_atomic, OwnedValue::to_json (result materialisation and printing)"],
-            "stub": ["the CLI shell (argv/stdin/stdout handling in jq_runner.rs) is not executed", "the global allocator is SimAlloc over the system allocator", "the OS: RLIMIT_AS 8 GiB backstop, 8 MiB thread stack", "the process environment: cleared, plus PATH, HOME=/nonexistent, TZ=UTC and LEGACY_NAME=<bytes that are not valid Unicode>"],
+            "stub": ["the CLI shell (argv/stdin/stdout handling in jq_runner.rs) is not executed", "the global allocator is SimAlloc over the system allocator", "the OS: RLIMIT_AS 8 GiB backstop, 8 MiB thread stack", "the process environment: cleared, plus PATH, HOME=/nonexistent, TZ per chunk, LEGACY_NAME=<bytes that are not valid Unicode>, fd 2 = /dev/full in one chunk of three"],
         },
         "exhaustive": false,
     });
